@@ -57,6 +57,13 @@ def bounded(q, preds):
             o = t[3] if t[2] == ('c', 'PRECISION') else t[2]
             if o[0] == 'c' and o[1].endswith('BITS'):
                 return 'PRECISION == %s: every value of that width is a legal quantile' % o[1]
+        # PRECISION >= BITS in any spelling: 2^BITS <= 2^PRECISION, so again every value of that width is below the bound
+        if not isinstance(v, tuple) and t[0] == 'bin' and t[1] in ('Lt', 'Le', 'Gt', 'Ge') and ('c', 'PRECISION') in (t[2], t[3]):
+            op = t[1] if v else {'Lt': 'Ge', 'Le': 'Gt', 'Gt': 'Le', 'Ge': 'Lt'}[t[1]]
+            P_left = t[2] == ('c', 'PRECISION')
+            o = t[3] if P_left else t[2]
+            if o[0] == 'c' and o[1].endswith('BITS') and ((P_left and op == 'Ge') or (not P_left and op == 'Le')):
+                return 'PRECISION >= %s: every value of that width is a legal quantile' % o[1]
     return None
 
 
